@@ -27,7 +27,11 @@ RULE = ('A: objects of N=0..12 segments x every discovery answer (segment k<N, u
         'loss/nack/validation-failure patterns around the retry limit (exhaustive over {0,r-1,r,r+1} losses per key for N<=3 '
         'in quick, N<=4 thorough; sampled above) x FinalBlockId markers (exact, absent, early self-designation, designating '
         'another segment, non-canonical encoding, only on early segments) x must_be_fresh x lifetime; B: adversarial producers '
-        '(wrong/empty/non-canonical names, malformed components, arbitrary exceptions); C: real NDNApp + dummy face. '
+        '(wrong/empty/non-canonical names, malformed components, arbitrary exceptions); C: real NDNApp + dummy face, the '
+        'NetworkNack of a nacked Interest drawn from every reason value / encoding (NackReason 0, Nack header without NackReason, '
+        '1, 50/100/150, width boundaries up to 2^64-1, non-shortest encodings), plus a table reason form x nacked key '
+        '(discovery, first, middle, last segment) x losses before the Nack (0, retry-1); A/B: the InterestNack raised by the '
+        'simulated network carries reasons from the same value set and the fetch must end with that reason. '
         'non-trivial = at least one Interest answered with Data and at least two Interests sent; distinct by case hash')
 ASSUMPTIONS = ['asyncio scheduling is irrelevant here: the fetcher awaits one coroutine at a time (sequential by construction)',
                'Name.normalize of the name argument is C09; the model starts from the normalised name',
@@ -102,12 +106,14 @@ LOST, NACKED, INVALID, DELIVERED = 0, 1, 2, 3
 class FakeApp:
     """express_interest(name, validator=…, **kwargs) -> coroutine, like NDNApp; [answer] decides."""
 
-    def __init__(self, answer, trace, as_view):
+    def __init__(self, answer, trace, as_view, nack_reason=150):
         self.answer = answer
         self.trace = trace
         self.kwlog = []
         self.as_view = as_view
         self.counts = {}
+        self.nack_reason = nack_reason     # what the InterestNack of a nacked Interest carries
+        self.caught = None                 # the exception the fetch ended with
 
     def express_interest(self, name, app_param=None, validator=None, need_raw_packet=False, **kwargs):
         from ndn.encoding import Name, MetaInfo, InterestParam
@@ -133,18 +139,22 @@ class FakeApp:
             if x[0] == 0:
                 raise T.InterestTimeout()
             if x[0] == 1:
-                raise T.InterestNack(150)
+                raise T.InterestNack(self.nack_reason)
             if x[0] == 2:
                 raise T.ValidationFailure(q[0], MetaInfo(), b'', None)
             raise Other(x[1])
         return co()
 
 
-def run_impl(loop, answer, name_arg, kw, as_view=False, max_yield=10 ** 6):
+# reasons a Nack may carry (0 = None is legal and falsy; the rest: what forwarders send and the width boundaries)
+NACK_REASONS = [150, 0, 50, 100, 0, 1, 255, 256, 65536, 1 << 32, (1 << 64) - 1]
+
+
+def run_impl(loop, answer, name_arg, kw, as_view=False, max_yield=10 ** 6, nack_reason=150):
     from ndn.app_support.segment_fetcher import segment_fetcher
     from ndn import types as T
     trace = []
-    app = FakeApp(answer, trace, as_view)
+    app = FakeApp(answer, trace, as_view, nack_reason)
 
     async def main():
         try:
@@ -155,7 +165,8 @@ def run_impl(loop, answer, name_arg, kw, as_view=False, max_yield=10 ** 6):
             return (0,)
         except T.InterestTimeout:
             return (1, (0,))
-        except T.InterestNack:
+        except T.InterestNack as e:
+            app.caught = e
             return (1, (1,))
         except T.ValidationFailure:
             return (1, (2,))
@@ -241,7 +252,7 @@ def headline(s, retry, fate):
     return out, (0,)
 
 
-def check_discipline(ctx, trace, ending, att, case):
+def check_discipline(ctx, trace, ending, att, case, site='segment_fetcher.retry'):
     """Retry discipline on the implementation's own trace (Proofs/SegFetchAny.v [disciplined])."""
     events = trace
     pos = 0
@@ -257,22 +268,29 @@ def check_discipline(ctx, trace, ending, att, case):
             pos += 1
         if k == att:
             if pos != len(events) or ending != (1, (0,)):
-                ctx.violation('segment_fetcher.retry', 'timeout-not-raised-after-attempts',
+                ctx.violation(site, 'timeout-not-raised-after-attempts',
                               f'{att} consecutive timeouts for one Interest but the fetch went on / ended with {ending}', case)
             return
         if pos >= len(events) or events[pos][0] != 'ask' or events[pos][1] != q:
-            ctx.violation('segment_fetcher.retry', 'timeout-not-retried',
+            ctx.violation(site, 'timeout-not-retried',
                           f'a timed-out Interest was not re-expressed (after {k} of {att} attempts)', case)
             return
         r = events[pos][2]
         pos += 1
         if r[0] == 'exc':
             if pos != len(events) or ending != (1, tuple(r[1])):
-                ctx.violation('segment_fetcher.retry', 'exception-not-propagated',
+                ctx.violation(site, 'exception-not-propagated',
                               f'the awaited Interest raised {r[1]} but the fetch went on / ended with {ending}', case)
             return
     if ending == (1, (0,)):
-        ctx.violation('segment_fetcher.retry', 'timeout-without-exhaustion', 'InterestTimeout raised before the attempts were used up', case)
+        ctx.violation(site, 'timeout-without-exhaustion', 'InterestTimeout raised before the attempts were used up', case)
+
+
+def check_nack_reason(ctx, site, ending, got_reason, sent_reason, case):
+    """'Nacks propagate': the InterestNack the fetch ends with carries the reason of the Nack that was received."""
+    if ending == (1, (1,)) and got_reason != sent_reason:
+        ctx.violation(site, 'nack-reason-changed',
+                      f'the fetch ended with InterestNack(reason={got_reason!r}), the Nack received carried {sent_reason!r}', case)
 
 
 def check_asks(ctx, M, cfg, es, asks, case, site):
@@ -398,8 +416,10 @@ def run_scenario(ctx, loop, s, retry, lifetime, mbf, how, stratum):
     if validator is not None:
         kw['validator'] = validator
     answer, fate = scenario_answer(s)
-    trace, ending, app = run_impl(loop, answer, name_arg, kw, as_view=(how == 1))
-    case = {'scenario': s, 'retry_times': retry, 'timeout': lifetime, 'must_be_fresh': mbf, 'call_style': how}
+    nack_reason = NACK_REASONS[(len(repr(s)) + retry + how) % len(NACK_REASONS)]
+    trace, ending, app = run_impl(loop, answer, name_arg, kw, as_view=(how == 1), nack_reason=nack_reason)
+    case = {'scenario': s, 'retry_times': retry, 'timeout': lifetime, 'must_be_fresh': mbf, 'call_style': how,
+            'nack_reason': nack_reason}
     cfg = [retry, lifetime, int(mbf)]
     if len(trace) > 3000:
         runaway(ctx, case)
@@ -437,6 +457,7 @@ def run_scenario(ctx, loop, s, retry, lifetime, mbf, how, stratum):
     # direct oracle 3: what the producer saw
     att = max(1, retry)
     check_discipline(ctx, trace, ending, att, case)
+    check_nack_reason(ctx, 'segment_fetcher.retry', ending, getattr(app.caught, 'reason', None), nack_reason, case)
     asks = [t for t in trace if t[0] == 'ask']
     for j, t in enumerate(asks):
         q = t[1]
@@ -551,15 +572,17 @@ def stream_b(ctx, loop):
         mbf = rng.choice([True, False])
         prefix = gen_base(rng) if rng.random() < 0.9 else []
         answer, memo = adversarial_answer(rng, rng.choice([3, 8, 20]))
+        nack_reason = rng.choice(NACK_REASONS)
         trace, ending, app = run_impl(loop, answer, prefix, {'retry_times': retry, 'timeout': lifetime, 'must_be_fresh': mbf},
-                                      as_view=rng.random() < 0.5)
+                                      as_view=rng.random() < 0.5, nack_reason=nack_reason)
         # the table the implementation saw: per request the answers in the order given
         table = {}
         for t in trace:
             if t[0] == 'ask':
                 table.setdefault(repr(t[1]), [t[1], []])[1].append(t[2])
         tb = [[enc_req(q), [enc_resp(r) for r in rs], [0, [0]]] for q, rs in table.values()]
-        case = {'prefix': prefix, 'retry_times': retry, 'timeout': lifetime, 'must_be_fresh': mbf, 'table': tb}
+        case = {'prefix': prefix, 'retry_times': retry, 'timeout': lifetime, 'must_be_fresh': mbf, 'table': tb,
+                'nack_reason': nack_reason}
         if len(trace) > 3000:
             case['table'] = 'omitted'
             runaway(ctx, case)
@@ -570,6 +593,7 @@ def stream_b(ctx, loop):
         if mev != iev or mend != ending:
             ctx.disagree('segment_fetcher(adversarial)', 'trace / ending differ', case, [mev, mend], [iev, ending])
         check_discipline(ctx, trace, ending, max(1, retry), case)
+        check_nack_reason(ctx, 'segment_fetcher.retry', ending, getattr(app.caught, 'reason', None), nack_reason, case)
         asks = [t for t in trace if t[0] == 'ask']
         ctx.case(repr(case), any(t[2][0] == 'data' for t in asks) and len(asks) >= 2,
                  {'prefix': prefix, 'retry': retry, 'interests': len(asks), 'ending': ending}, 'B.adversarial')
